@@ -335,6 +335,10 @@ func (c *SpecCtx) ident(name string) (Term, error) {
 		// a call that is not on any path: its result is irrelevant; use a fresh unconstrained value
 		return Term{}, fmt.Errorf("no call result named %s", name)
 	}
+	if name == "$recovered" || name == "$panic" {
+		vc.comp(name, "Int")
+		return Term{vc.get(c.state(), name), "Int", nil}, nil
+	}
 	if name == "$alloc" {
 		return Term{vc.get(c.state(), vc.allocComp()), "Int", nil}, nil
 	}
